@@ -261,7 +261,22 @@ func (e *Env) Exec(ctx context.Context, worker string, op Op) Res {
 		if exp.Status != 200 {
 			return Res{Err: "harness", Status: exp.Status, Msg: "export failed: " + string(exp.Body)}
 		}
-		r = e.St.Do(ctx, worker, "POST", prefix+"/logs/import", exp.Body, map[string]string{"Content-Type": "application/octet-stream"})
+		stream := exp.Body
+		if op.ID > 1 {
+			// a client sending only the tail of the journal: the logs with id >= op.ID
+			var sb strings.Builder
+			for _, ln := range strings.Split(string(exp.Body), "\n") {
+				var hdr struct {
+					ID int `json:"id"`
+				}
+				if strings.TrimSpace(ln) == "" || json.Unmarshal([]byte(ln), &hdr) != nil || hdr.ID < op.ID {
+					continue
+				}
+				sb.WriteString(ln + "\n")
+			}
+			stream = []byte(sb.String())
+		}
+		r = e.St.Do(ctx, worker, "POST", prefix+"/logs/import", stream, map[string]string{"Content-Type": "application/octet-stream"})
 	case "revert":
 		if op.Force {
 			q.Set("force", "true")
